@@ -252,6 +252,9 @@ type elCase struct {
 
 type elDemand struct {
 	name string
+	// site: the library operation the demand goes through besides the construct under test
+	// ("" = none). A wrong value is blamed on it when the plain demand (menu[0]) is right.
+	site string
 	do   func() string // "" = the value delivered is the value the thunk returned
 }
 
@@ -375,6 +378,23 @@ func elConstruct[T any](c int, body func() T, zeroEval bool, tok int, ec *elCase
 	panic("bad construct")
 }
 
+// elDemandSites: demand form -> the library operation it goes through (see elDemand.site).
+var elDemandSites = map[string]string{
+	"Map2(x,x)": "lazy.Map2", "x.Map(id)": "lazy.Eval.Map", "lazy.FlatMap(x,Done)": "lazy.FlatMap", "Map2(x.Map(id),x.FlatMap(Done))": "lazy.Map2",
+	"dag-extension.Get": "lazy.Eval/extension-of-shared-value", "dag-extension.Run": "lazy.Eval/extension-of-shared-value",
+	"lazy.Call(m).Get": "lazy.Call", "Map2(Call(m),Call(m))": "lazy.Map2(lazy.Call)",
+	"list.Map(l,id).Head": "list.Map", "list.Zip(l,l).Head": "list.Zip", "list.Combine(l,l).ToSeq": "list.Combine",
+	"list.Map(l,id).IsEmpty": "list.Map", "list.Combine(l,l).IsEmpty": "list.Combine",
+}
+
+// elBlame: the key site of a wrong value seen by demand dm.
+func elBlame(ec *elCase, dm elDemand, construct string) string {
+	if dm.site != "" && ec.menu[0].do() == "" {
+		return dm.site
+	}
+	return construct
+}
+
 var elExtNames = []string{"x.Map(id)", "Map2(x,x)", "x.FlatMap(_=>x)", "prev.FlatMap(Done)", "Map2(prev,x)"}
 
 // elPrepare builds the value, the construct around the thunk returning it and the menu of
@@ -417,7 +437,9 @@ func elPrepare[T any](k *elKind[T], vi, c, tok int, r *rand.Rand, inThunk func()
 	if !ok {
 		h = elConstruct(c, body, zeroEval, tok, ec)
 	}
-	add := func(name string, do func() string) { ec.menu = append(ec.menu, elDemand{name, do}) }
+	add := func(name string, do func() string) {
+		ec.menu = append(ec.menu, elDemand{name, elDemandSites[name], do})
+	}
 	id := func(a T) T { return a }
 	pure := func(a T) lazy.Eval[T] { return lazy.Done(a) }
 	// pair(how): a Map2 callback that checks both operands and passes one of them on
@@ -691,7 +713,7 @@ func runElemSeqCase(w *vrt.W, i, k int) {
 				return
 			}
 			if bad != "" {
-				w.Violation(i, name+"/wrong-result-value"+elKeySuffix(nilish), fmt.Sprintf("%s of element type %s, demand #%d: %s", name, kind.name, d+1, bad), wit())
+				w.Violation(i, elBlame(ec, dm, name)+"/wrong-result-value"+elKeySuffix(nilish), fmt.Sprintf("%s of element type %s, demand #%d (%s): %s", name, kind.name, d+1, dm.name, bad), wit())
 				return
 			}
 			if strings.HasPrefix(dm.name, "dag-extension") {
@@ -789,10 +811,11 @@ func runElemConcCase(w *vrt.W, i, k int) {
 			}
 		}
 		bad := make([]string, g)
+		badAt := make([]int, g)
 		panics := release(g, pre, obs, func(id int) {
 			for d, dm := range todo[id] {
 				if s := dm.do(); s != "" && bad[id] == "" {
-					bad[id] = s
+					bad[id], badAt[id] = s, d
 				}
 				if d+1 < len(todo[id]) {
 					runtime.Gosched()
@@ -819,7 +842,15 @@ func runElemConcCase(w *vrt.W, i, k int) {
 		}
 		for id, s := range bad {
 			if s != "" {
-				w.Violation(i, name+"/wrong-result-value"+elKeySuffix(nilish), fmt.Sprintf("%s of element type %s, goroutine %d of %d: %s", name, kind.name, id, g, s), wit())
+				dm := todo[id][badAt[id]]
+				// the operation the demand goes through is blamed only when the same demand is
+				// wrong again after the round while the plain demand is right; a transient
+				// wrong value is the construct's
+				site := name
+				if dm.site != "" && ec.menu[0].do() == "" && dm.do() != "" {
+					site = dm.site
+				}
+				w.Violation(i, site+"/wrong-result-value"+elKeySuffix(nilish), fmt.Sprintf("%s of element type %s, goroutine %d of %d (%s): %s", name, kind.name, id, g, dm.name, s), wit())
 				return
 			}
 		}
@@ -873,7 +904,7 @@ func elemFloors(tier string, f map[string]int64) {
 		"call", "call-twice", "lazy.Call(m).Get", "Map2(Call(m),Call(m))",
 		"Head", "NonEmpty+Head", "list.Map(l,id).Head", "list.Zip(l,l).Head", "Unapply", "ToSeq", "Foreach", "list.Combine(l,l).ToSeq",
 		"IsEmpty", "NonEmpty", "ToSeq(empty)", "Foreach(empty)", "list.Map(l,id).IsEmpty", "list.Combine(l,l).IsEmpty"} {
-		f["hit.elem.seq.demand/"+d] = 100
+		f["hit.elem.seq.demand/"+d] = 60 // rarest forms: ~147 expected in quick (sd ~12)
 		f["hit.elem.conc.demand/"+d] = 100
 	}
 	l := layout(tier)
